@@ -1272,6 +1272,8 @@ VG2_TYPE_TESTS = {'is', 'Py_IS_TYPE', 'isinstance', 'IsNamedTupleClass', 'IsName
                   'IsStructSequenceClass', 'IsStructSequenceInstance', 'IsStructSequence', 'DictKeysEqual',
                   'PyList_CheckExact', 'PyTuple_CheckExact', 'PyDict_CheckExact', 'PyType_Check', 'PyCallable_Check',
                   'equal'}
+VG2_STATUS_CALLS = {'PyList_Sort', 'PyList_Reverse', 'PyList_Append', 'PyList_SetSlice', 'PyDict_SetItem',
+                    'PyDict_DelItem', 'PyObject_SetAttr', 'PyList_Insert'}
 VG2_SCOPE = {
     'C07': ('src/treespec/flatten.cpp', 'src/treespec/richcomparison.cpp', 'include/optree/pytypes.h'),
     'C09': ('src/treespec/treespec.cpp',), 'C08': ('src/treespec/constructor.cpp', 'src/treespec/treespec.cpp'),
@@ -1282,7 +1284,7 @@ VG2_SCOPE = {
 }
 
 
-def _vg2_rejecting(a, pos):
+def _vg2_rejecting(a, pos, inits=None):
     """outcome of the un-negated atom `a` on which the guard must throw (True / False), or None
     when the atom is of no class with a fixed convention; `pos` is the sign under which the atom
     occurs (after `!`)"""
@@ -1295,13 +1297,23 @@ def _vg2_rejecting(a, pos):
             return False                     # not of the expected type / keys not equal -> throw
         if nm == 'not_equal':
             return True
+        if nm in VG2_STATUS_CALLS:
+            return True                      # a non-zero status of the C API -> throw
         return None
     if a.kind == 'BinaryOperator' and a.op in ('==', '!=') and len(a.kids) == 2:
         r = strip_casts(a.kids[1])
         if r is not None and r.kind in ('CXXNullPtrLiteralExpr', 'GNUNullExpr'):
             return a.op == '=='              # a null result of the C API -> throw
-        if ce(r) == -1:
-            return a.op == '=='              # status -1 -> throw
+        minus_one = ce(r) == -1 or (r is not None and r.kind == 'UnaryOperator' and r.op == '-' and r.kids and
+                                    ce(strip_casts(r.kids[0])) == 1)
+        if minus_one and inits is not None:
+            # ... of a value that is the result of a C-API call (`const int result = PyDict_Contains(...)`)
+            l = strip_casts(a.kids[0])
+            src_ = l
+            if l is not None and l.kind == 'DeclRefExpr' and member_path(l) in inits:
+                src_ = strip_casts(inits[member_path(l)])
+            if src_ is not None and src_.kind in CALL_KINDS and (src_.callee_name() or '').startswith('Py'):
+                return a.op == '=='          # status -1 -> throw
         return None
     if a.kind == 'BinaryOperator' and a.op in ('<', '>=') and len(a.kids) == 2 and ce(strip_casts(a.kids[1])) == 0 and \
             strip_casts(a.kids[0]) is not None and strip_casts(a.kids[0]).kind in CALL_KINDS and \
@@ -1353,7 +1365,7 @@ def vg2(ctx):
                 if cn.kind != 'cond' or cn.ast is None or not any(x is cn.ast for x in g.kids[0].walk()):
                     continue
                 a, pos = unnegate(cn.ast)
-                rej = _vg2_rejecting(a, pos)
+                rej = _vg2_rejecting(a, pos, local_inits(f))
                 if rej is None:
                     continue
                 key = (g.file, g.line, a.text(3))
